@@ -163,6 +163,8 @@ func runC32(p *Prog, r *Result) {
 	r.Rule("R32a", "each goroutine started by package interp runs its statements on a Runner obtained from subshell(true) in the spawning function", 3)
 	r.Rule("R32b", "inside spawned functions the parent Runner is never stored to (directly or through a method that stores Runner fields)", 3)
 	r.Rule("R32c", "bgProc: *exit is stored before close(done) and nowhere after; every read of *exit follows a receive from the same done channel", 3)
+	r.Rule("R32e", "every stream the interpreter installs as a shell's stdout or stderr at run time is safe to share with that shell's background jobs (inherited, an *os.File or pipe, or io.Discard)", 5)
+	checkInstalledWritersShared(p, r, "R32e")
 	r.Rule("R32d", "what a function starts on a sync.WaitGroup it waits for on every path to its exit", 1)
 	checkWaitGroupJoined(p, r, "R32d")
 	r.Rule("R27a", "writes to variable storage only through storage created in the same activation (shared with C27: such a write from a background copy is a data race)", 60)
